@@ -515,6 +515,13 @@ class FnTranslator:
             return e[1][1]
         return None
 
+    def find_alias(self, e):
+        """`X.iter_mut().find(closure).unwrap()` / `.expect(..)` -> (X, closure)"""
+        if e[0] == "mcall" and e[2] in ("unwrap", "expect") and e[1][0] == "mcall" and e[1][2] == "find" and len(e[1][4]) == 1 \
+                and e[1][1][0] == "mcall" and e[1][1][2] == "iter_mut" and not e[1][1][4]:
+            return e[1][1][1], e[1][4][0]
+        return None
+
     def some_alias(self, e):
         """`X.as_mut().unwrap()` / `.expect(..)` -> ("someof", X): a write-through alias of the content of the Option place X"""
         if e[0] == "mcall" and e[2] in ("unwrap", "expect") and e[1][0] == "mcall" and e[1][2] == "as_mut" and not e[1][4]:
@@ -644,9 +651,16 @@ class FnTranslator:
             return self.err_tag(e[1], env, pre)
         raise RsError("error value outside the subset")
 
+    def compat(self, a, b):
+        """equal up to element types not yet known (`Vec::new()` without annotation: Lean infers them)"""
+        if a == ("unknown",) or b == ("unknown",): return True
+        if isinstance(a, (tuple, list)) and isinstance(b, (tuple, list)) and len(a) == len(b) and type(a) == type(b):
+            return all(self.compat(x, y) for x, y in zip(a, b))
+        return a == b
+
     def check_ty(self, got, want, what):
         if got == INTLIT and is_int(want): return
-        if got != want:
+        if got != want and not self.compat(got, want):
             raise RsError("type mismatch in %s: %r vs %r" % (what, got, want))
 
     def wrap(self, pre, body):
@@ -786,6 +800,24 @@ class FnTranslator:
                 env2 = dict(env)
                 env2[pat[1]] = ("alias", al, at)
                 return self.stmts(rest, tail, env2, fin)
+            fa = self.find_alias(e)
+            if fa is not None and pat[0] == "pvar":
+                # `let h = X.iter_mut().find(|h| pred).unwrap();`: h is a write-through alias of the first element of
+                # the vector place X that satisfies pred (panic if there is none)
+                X, clo = fa
+                if self.place_root(X) != "self": raise RsError("iter_mut().find() on a vector that is not part of self")
+                pre = []
+                base, bt = self.expr(X, env, pre, None)
+                if bt[0] != "vec": raise RsError("iter_mut().find() on a non-vector")
+                pats, ir, t = self.closure1(clo, [bt[1]], env, BOOL)
+                if monadic(ir): raise RsError("effectful predicate closure")
+                self.check_ty(t, BOOL, "find")
+                iv = self.fresh("i")
+                pre.append(("bind", iv, MCall("Rs.unwrap (%s.findIdx? (fun %s => %s))" % (base, pats[0], inline(ir)))))
+                env2 = dict(env)
+                env2[iv] = ("int", "usize")
+                env2[pat[1]] = ("alias", ("index", X, ("path", [iv])), bt[1])
+                return self.wrap(pre, self.stmts(rest, tail, env2, fin))
             sa = self.some_alias(e)
             if sa is not None and pat[0] == "pvar":
                 pre = []
